@@ -63,7 +63,10 @@ func init() {
 	Plans["C05"].Prefixes = append(Plans["C05"].Prefixes, "H_C02_tonumber")
 	Plans["C18"].Prefixes = append(Plans["C18"].Prefixes, "H_C02_tonumber")
 	Plans["C17"].Prefixes = append(Plans["C17"].Prefixes, "H_C01_wide")
-	Plans["C03"].Prefixes = append(Plans["C03"].Prefixes, "H_C16_long")
+	Plans["C16"].Prefixes = append(Plans["C16"].Prefixes, "H_C17_quoted")
+	Plans["C01"].Prefixes = append(Plans["C01"].Prefixes, "H_C17_quoted")
+	Plans["C03"].Prefixes = append(Plans["C03"].Prefixes, "H_C16_long", "H_C06_longhistory")
+	Plans["C07"].Prefixes = append(Plans["C07"].Prefixes, "H_C06_longhistory")
 }
 
 // heavyHarness: relative cost rank (measured); unlisted harnesses rank 0.
